@@ -357,6 +357,11 @@ const nonRootUID = 65534
 func genScenario(r *common.Rand, idx int) *Scenario {
 	sc := &Scenario{Op: "S", NonRoot: *nonRootFlag}
 	sc.Umask = common.Pick(r, []int{0o022, 0o022, 0o077, 0o027, 0o002, 0o000, 0o007, 0o026})
+	if *nonRootFlag && r.Chance(1, 6) {
+		// the unprivileged user's own umask may take the owner's write/search permission away:
+		// the model's permission check must predict the EACCES
+		sc.Umask = common.Pick(r, []int{0o300, 0o200, 0o100, 0o322, 0o277})
+	}
 	if !*nonRootFlag && r.Chance(1, 8) {
 		// umasks with owner bits (only root can work under them)
 		sc.Umask = common.Pick(r, []int{0o300, 0o277, 0o123, 0o777, 0o500})
@@ -371,6 +376,9 @@ func genScenario(r *common.Rand, idx int) *Scenario {
 	sc.ReproPair = r.Chance(1, 2)
 	if r.Chance(1, 3) {
 		sc.Foreign = 1 + r.U64()%1000000
+	}
+	if sc.NonRoot && sc.Umask&0o300 != 0 {
+		sc.Via = "memory" // an OCI layout could not write into its own directories
 	}
 	if idx < 240 {
 		// the first scenarios walk through every intermediate store x SkipUnpack x ForceCAS x IgnoreNoName
@@ -942,8 +950,8 @@ func runScenario(sc *Scenario) {
 	fail := func(id, sig, msg string) { oracleFail(id, sig, msg, sc) }
 	scid := run.NewID()
 
-	old := syscall.Umask(sc.Umask)
-	defer syscall.Umask(old)
+	// the scenario's umask governs the restoring side only (second file store, direct pushes);
+	// the source trees are materialised and added under the process's own umask
 	umask := uint32(sc.Umask)
 
 	for _, it := range sc.Items {
@@ -1147,6 +1155,12 @@ func runScenario(sc *Scenario) {
 	}
 
 	// ---- unpack verification clause
+	old := syscall.Umask(sc.Umask)
+	defer syscall.Umask(old)
+	ownerBits := sc.NonRoot && sc.Umask&0o300 != 0
+	if ownerBits {
+		run.Count("nonroot umask with owner write/search bits")
+	}
 	if sc.Foreign != 0 {
 		for _, it := range sc.Items {
 			if it.Tree.Kind == "d" {
@@ -1241,6 +1255,9 @@ func runScenario(sc *Scenario) {
 		case worst == "through" && (strings.Contains(msg, "not a directory") || strings.Contains(msg, "too many levels")):
 			fail(scid, "link-through-file-rejected", "a tree whose relative links all stay inside was refused because one (dangling) target passes through a regular file or through itself: "+msg)
 			return
+		case ownerBits && strings.Contains(msg, "permission denied"):
+			// the umask takes the owner's own write/search permission from every new directory
+			run.Count("not-judged: umask removes the owner's permissions")
 		case sc.NonRoot && strings.Contains(msg, "permission denied"):
 			fail(scid, "nonroot-permission-denied", "restore by an unprivileged user failed: "+msg)
 			return
@@ -1488,6 +1505,7 @@ func tamperCases(ctx context.Context, sc *Scenario, scid, tail, work string, i i
 		}
 		dir := filepath.Join(work, "tamper", fmt.Sprint(k))
 		os.MkdirAll(dir, 0o755)
+		os.Chmod(dir, 0o755)
 		st, _ := file.New(dir)
 		st.PreservePermissions = sc.Preserve
 		nd := d
@@ -1523,7 +1541,7 @@ func tamperCases(ctx context.Context, sc *Scenario, scid, tail, work string, i i
 			res = "ERR"
 		}
 		id := run.NewID()
-		run.Case(id, fmt.Sprintf("U %d %d %s %d %d %s %s%s", sc.Umask, b2i(sc.Preserve), v.ckModel, b2i(v.digestOK), b2i(v.sizeOK), nameComps(name), tree(it.Tree, false), tail), res)
+		run.Case(id, fmt.Sprintf("U%s %d %d %s %d %d %s %s%s", map[bool]string{false: "", true: "U"}[sc.NonRoot], sc.Umask, b2i(sc.Preserve), v.ckModel, b2i(v.digestOK), b2i(v.sizeOK), nameComps(name), tree(it.Tree, false), tail), res)
 		run.Count("unpack-" + v.tag + "=" + res)
 		run.Nontrivial("U " + v.tag + string(d.Digest))
 		bn := benign(it.Tree, name)
@@ -1532,6 +1550,8 @@ func tamperCases(ctx context.Context, sc *Scenario, scid, tail, work string, i i
 			oracleFail(id, "checksum-unverified", fmt.Sprintf("Push(%q) accepted a blob whose uncompressed digest differs from the annotation", name), sc)
 		case (v.tag == "wrong-digest" || v.tag == "wrong-size") && err == nil:
 			oracleFail(id, "blob-unverified", fmt.Sprintf("Push(%q) accepted a blob not matching the descriptor (%s)", name, v.tag), sc)
+		case v.tag == "good" && err != nil && sc.NonRoot && sc.Umask&0o300 != 0 && strings.Contains(err.Error(), "permission denied"):
+			run.Count("not-judged: umask removes the owner's permissions")
 		case v.tag == "good" && err != nil && bn:
 			oracleFail(id, "unpack-failed", fmt.Sprintf("Push(%q) of the untouched blob failed: %v", name, err), sc)
 		}
@@ -1637,6 +1657,7 @@ func foreignCase(ctx context.Context, sc *Scenario, tail, work string, it Item) 
 			file.AnnotationDigest: string(digest.FromBytes(tarb.Bytes()))}}
 	dir := filepath.Join(work, "foreign")
 	os.MkdirAll(dir, 0o755)
+	os.Chmod(dir, 0o755)
 	defer os.RemoveAll(dir)
 	st, err := file.New(dir)
 	if err != nil {
